@@ -397,6 +397,46 @@ def run(ctx):
                                   'keeps float64 data but answers typecode() == \'f\', so it is saved as float32' % norm(cond[0].test)))
         else:
             ctx.ok('R-TYPECODE', 'typecode', wv, norm(st))
+    # ---- R-CHARTYPE: a type code taken from numpy's dtype.char is not handed on as 'S' (createVariable reads that as a zero-length string type)
+    ctx.rule('R-CHARTYPE', "converter: a type code that falls back to <data>.dtype.char maps numpy's 'S' (a character array) to 'c' / 'S1' before createVariable sees it")
+    gm = ctx.src.mod(RP)
+    nchar = 0
+    for q, fn_ in sorted(gm.functions.items()):
+        if '<locals>' in q or not q.startswith('Pseudo2NetCDF.'):
+            continue
+        chars = [x for x in ast.walk(fn_) if isinstance(x, ast.Attribute) and x.attr == 'char' and isinstance(x.value, ast.Attribute) and x.value.attr == 'dtype']
+        if not chars:
+            continue
+        flows = 'createVariable' in norm(fn_) or 'return' in [type(x).__name__.lower() for x in ast.walk(fn_)]
+        if not flows:
+            continue
+        nchar += 1
+        wq = 'src/PseudoNetCDF/%s %s' % (RP, q)
+        holders = set(t.id for st in iter_stmts(fn_.body) if isinstance(st, ast.Assign) and any(c_ in list(ast.walk(st.value)) for c_ in chars) for t in st.targets if isinstance(t, ast.Name))
+        mapped = False
+        par_of = {}
+        for x in ast.walk(fn_):
+            for ch_ in ast.iter_child_nodes(x):
+                par_of[id(ch_)] = x
+        for x in ast.walk(fn_):
+            if isinstance(x, ast.Compare) and len(x.ops) == 1 and isinstance(x.ops[0], ast.Eq):
+                sides = [x.left, x.comparators[0]]
+                if any(const_str(s_) == 'S' for s_ in sides) and any((isinstance(s_, ast.Name) and s_.id in holders) or (isinstance(s_, ast.Attribute) and s_.attr in ('char', 'kind')) for s_ in sides):
+                    par_ = par_of.get(id(x))
+                    scope = par_ if isinstance(par_, (ast.If, ast.IfExp)) else None
+                    body_nodes = (scope.body if isinstance(scope, ast.If) else [scope.body]) if scope is not None else []
+                    if any(const_str(c_) in ('c', 'S1') for b_ in body_nodes for c_ in ast.walk(b_)):
+                        mapped = True
+            elif isinstance(x, ast.Dict):
+                for k_, v_ in zip(x.keys, x.values):
+                    if k_ is not None and const_str(k_) == 'S' and const_str(v_) in ('c', 'S1'):
+                        mapped = True
+        if mapped:
+            ctx.ok('R-CHARTYPE', q, wq, "dtype.char 'S' is mapped to the character type")
+        else:
+            ctx.violation(Finding('R-CHARTYPE', RP, q, api.stmt_of(chars[0]), "the type code of a variable without typecode() (one read from a netCDF file) is its dtype.char; for a character variable that is 'S', "
+                                  "which createVariable reads as a zero-length string type and rejects: a file with a character variable (WRF Times, station names) that was opened from netCDF cannot be saved again"))
+    ctx.count('converter functions with a dtype.char fallback', nchar)
     # ---- R-PARAMUSED: every option the converter accepts is read (a requested flavour/mode that is not forwarded silently becomes the default)
     ctx.rule('R-PARAMUSED', 'every parameter of the converter functions is read in the body (options are forwarded, not dropped)')
     npu = 0
